@@ -327,7 +327,7 @@ class _GenerateRenderMethod:
                 % ",".join(
                     [
                         "%s=%s" % (x, x)
-                        for x in self.identifiers.argument_declared
+                        for x in sorted(self.identifiers.argument_declared)
                     ]
                 )
             )
@@ -963,7 +963,9 @@ class _GenerateRenderMethod:
                     "__M_locals.update(__M_dict_builtin([(__M_key,"
                     " __M_locals_builtin_stored[__M_key]) for __M_key in"
                     " [%s] if __M_key in __M_locals_builtin_stored]))"
-                    % ",".join([repr(x) for x in node.declared_identifiers()])
+                    % ",".join(
+                        [repr(x) for x in sorted(node.declared_identifiers())]
+                    )
                 )
 
     def visitIncludeTag(self, node):
